@@ -103,3 +103,51 @@ theorem C16_own_protocols_strict :
     parseStrict MevCommit.Extracted.preconfProtocolVersion ≠ none ∧
     parseStrict MevCommit.Extracted.discoveryProtocolVersion ≠ none := by
   constructor <;> decide
+
+private theorem foldl_muxInsert_distinct (acc ds : List Desc)
+    (h : ((acc ++ ds).map Prod.fst).Nodup) : ds.foldl muxInsert acc = acc ++ ds := by
+  induction ds generalizing acc with
+  | nil => simp
+  | cons d ds ih =>
+    have hfilter : acc.filter (fun x => x.1 != d.1) = acc := by
+      apply List.filter_eq_self.mpr
+      intro x hx
+      have hne : x.1 ≠ d.1 := by
+        intro heq
+        rw [List.map_append, List.map_cons] at h
+        have := (List.nodup_append.mp h).2.2 x.1 (List.mem_map.mpr ⟨x, hx, rfl⟩) d.1 (by simp)
+        exact this heq
+      simpa using hne
+    have h' : (((acc ++ [d]) ++ ds).map Prod.fst).Nodup := by simpa using h
+    simp only [List.foldl_cons, muxInsert, hfilter]
+    rw [ih (acc ++ [d]) h']
+    simp
+
+/-- **Every protocol stays registered.**  When the descriptors handed to the node carry distinct
+protocol names (the node's do: handshake, discovery, preconfirmation), the muxer ends up holding
+every one of them — equal *version strings* of different protocols do not evict each other. -/
+theorem C16_distinct_names_all_registered (ds : List Desc) (h : (ds.map Prod.fst).Nodup) :
+    registerAll ds = ds := by
+  have := foldl_muxInsert_distinct [] ds (by simpa using h)
+  simpa [registerAll] using this
+
+/-- routing a stream looks at the incoming identifier and the registered descriptors only: the
+identifiers seen before (well-formed or not) are no input of it, and with distinct names a
+descriptor is among the targets iff the name / major / minor rule says so -/
+theorem C16_routing_is_history_free (ds : List Desc) (h : (ds.map Prod.fst).Nodup) (incoming : Bytes)
+    (d : Desc) : d ∈ routedTo (registerAll ds) incoming ↔
+      d ∈ ds ∧ matchProto incoming d.1 d.2 = .decided true := by
+  rw [C16_distinct_names_all_registered ds h]
+  simp only [routedTo, List.mem_filter]
+  constructor
+  · rintro ⟨hm, hd⟩
+    refine ⟨hm, ?_⟩
+    cases hmp : matchProto incoming d.1 d.2 with
+    | decided b => cases b <;> simp [hmp] at hd ⊢
+    | _ => simp [hmp] at hd
+  · rintro ⟨hm, hd⟩
+    exact ⟨hm, by simp [hd]⟩
+
+example : registerAll [([100], [50]), ([112], [50])] = [([100], [50]), ([112], [50])] := by decide
+/-- (and what happens when two descriptors do share a name: the earlier one is replaced) -/
+example : registerAll [([100], [49]), ([100], [50])] = [([100], [50])] := by decide
